@@ -119,6 +119,19 @@ def run(chk):
                 bctx = branch_context(n)
                 if 'len(%s)' % n.value.id in bctx:
                     guarded = True
+                # short-circuit guard: `len(xs) > k and xs[k] ...`
+                q = n
+                while q is not None and q is not fi.node and not guarded:
+                    par = getattr(q, '_parent', None)
+                    if isinstance(par, ast.BoolOp) and isinstance(par.op, ast.And):
+                        idx = [i for i, v_ in enumerate(par.values) if v_ is q]
+                        for v_ in par.values[:idx[0]] if idx else []:
+                            if isinstance(v_, ast.Compare) and norm(v_.left) == 'len(%s)' % n.value.id and len(v_.ops) == 1 \
+                                    and isinstance(v_.comparators[0], ast.Constant):
+                                cst = v_.comparators[0].value
+                                if (isinstance(v_.ops[0], ast.Gt) and cst >= k) or (isinstance(v_.ops[0], ast.GtE) and cst >= k + 1):
+                                    guarded = True
+                    q = par
                 exempt = False
                 if k == 1 and fq == 'parser._split_msh':
                     # fields = msh.split(field_sep) after ^MSH(?P<field_sep>\S) matched: the separator occurs at least once
